@@ -123,6 +123,12 @@ def ev(e, env, ctx, group=None):
       raise Unsupported('operator ' + op)
     return S(v, 'int', OR(a.null, b.null))
   if k == 'concat':
+    # `'lit' || ''` is how the compiler keeps a literal GROUP BY key from being read as a
+    # column index
+    if e[2] == ('str', ''):
+      return ev(e[1], env, ctx, group)
+    if e[1] == ('str', ''):
+      return ev(e[2], env, ctx, group)
     raise Unsupported('string concatenation')
   if k == 'case':
     out = ev(e[2], env, ctx, group) if e[2] is not None else V.NULL
